@@ -22,7 +22,7 @@ CHUNK = 20000
 # ---------------------------------------------------------------------------------------
 # spec side
 # ---------------------------------------------------------------------------------------
-ACTIONS = ("Assign", "Copy", "Use", "IfThen", "IfElse", "LoopStart", "LoopEnter", "LoopExit", "Break", "Continue",
+ACTIONS = ("Assign", "Copy", "Use", "Comp", "IfThen", "IfElse", "LoopStart", "LoopEnter", "LoopExit", "Break", "Continue",
            "Return", "DeadEdge", "EndSeq", "DefFun", "EndFun")
 
 
@@ -47,6 +47,7 @@ def spec_witnesses(ctx, progs):
     everything in dead code of a nested function (not seen by the outer liveness pass)."""
     wit = {p["id"]: set() for p in progs}
     req = {p["id"]: set() for p in progs}
+    bodies = {p["id"]: p["body"] for p in progs}
     stats = {"facts": 0, "reads": 0, "witness_reads": 0}
     for c0 in range(0, len(progs), CHUNK):
         chunk = progs[c0:c0 + CHUNK]
@@ -59,12 +60,21 @@ def spec_witnesses(ctx, progs):
         missing = [p["id"] for p in chunk if p["id"] not in done]
         if missing:
             raise lib.Machinery(f"Scoping: {len(missing)} programs have no terminating path, e.g. id {missing[0]}")
-        sts, dd = {}, {}
+        sts, dd, by_prog = {}, {}, {}
         for f in r.printed:
             if "st" in f:
                 sts.setdefault((f["id"], f["v"], f["l"]), set()).add(f["st"])
                 dd.setdefault((f["id"], f["v"], f["l"]), set()).add(f["d"])
+                by_prog.setdefault(f["id"], set()).add((f["id"], f["v"], f["l"]))
                 stats["facts"] += 1
+        # vacuity guard for comprehension scoping: a comprehension variable shadows a local that is defined there
+        # (per the spec) and is read, still defined and not reassigned, in a later block
+        for f in r.printed:
+            if "shadow" in f and f["sh"] in ("int", "bool") and f["d"] == "live":
+                reads = {l for (i, v, l) in by_prog.get(f["id"], ()) if v == f["shadow"] and sts[(i, v, l)] & {"int", "bool"}
+                         and dd[(i, v, l)] == {"live"}}
+                if G.shadow_live_across(bodies[f["id"]], f["shadow"], f["l"], reads):
+                    stats.setdefault("shadow_live_ids", set()).add(f["id"])
         mixed = [k for k, v in dd.items() if len(v) > 1]
         if mixed:
             raise lib.Machinery(f"Scoping: read {mixed[0]} is reached both live and dead: {dd[mixed[0]]}")
@@ -90,6 +100,7 @@ def spec_witnesses(ctx, progs):
                         req[w["id"]].add((k, w["v"], w["l"]))
         os.remove(pin)
         os.remove(pf)
+    stats["shadow_live_ids"] = stats.get("shadow_live_ids", set())
     return wit, req, stats
 
 
@@ -167,7 +178,11 @@ def build_programs(ctx):
     n_ex = len(progs)
     seen = {G.key(p) for p in progs}
     # joins of >= 3 edges at loop heads / tails; code after return/break/continue behind a block boundary
-    for p in G.jump_family() + G.dead_family():
+    comp = G.comp_family()  # comprehension variables that may shadow a local (quick: a seeded 450 of the 1200)
+    if ctx.quick:
+        random.Random(ctx.seed + 77).shuffle(comp)
+        comp = comp[:450]
+    for p in G.jump_family() + G.dead_family() + comp:
         if G.key(p) not in seen:
             seen.add(G.key(p))
             progs.append(p)
@@ -213,7 +228,7 @@ def run(ctx):
     progs, n_ex = build_programs(ctx)
     ctx.log(f"{len(progs)} programs ({n_ex} from the enumeration of <= 3 statements)")
     wit, req, stats = spec_witnesses(ctx, [{"id": p["id"], "body": p["body"]} for p in progs])
-    ctx.log(f"spec done: {stats}")
+    ctx.log(f"spec done: { {k: v for k, v in stats.items() if k != 'shadow_live_ids'} } shadow_live={len(stats['shadow_live_ids'])}")
     # vacuity guard (extra TLC run with -coverage): thorough tier and selftest only
     cov = None if ctx.quick else action_coverage(ctx, progs[::max(1, len(progs) // 1200)])
     results = replay_programs(progs)
@@ -247,6 +262,11 @@ def run(ctx):
             kinds[k] = kinds.get(k, 0) + 1
     if not ctx.violations and (min(kinds.get(k, 0) for k in ("never", "maybe", "types", "unbound")) == 0 or with_w == len(progs)):
         raise lib.Machinery(f"vacuous campaign: witness kinds {kinds}, accepted {len(progs) - with_w}")
+    shadow_live = stats.get("shadow_live_ids", set())
+    shadow_live_clean = [i for i in shadow_live if not wit[i]]
+    if not shadow_live_clean:
+        raise lib.Machinery("vacuous campaign: no witness-free program in which a comprehension variable shadows a local "
+                            "that is live across the comprehension's (non-entry) block")
     sample = [progs[i] for i in (n_ex // 2, n_ex + 7, len(progs) - 1)]
     ctx.coverage.update({
         "traces_validated_against_impl": len(progs),
@@ -258,6 +278,11 @@ def run(ctx):
         "exhaustive_part": (f"{n_ex} programs: all with <= 2 statements and " + ("a seeded sample of 4000 of the 13 506" if ctx.quick else "all 13 506")
                             + " with 3 statements (modulo va<->vb)"),
         "loop_jump_family": "648 systematic loop programs with break/continue (joins of >= 3 edges)",
+        "comprehension_family": "systematic programs with `array(e for v in range(3))` whose variable may shadow a local "
+                                "(quick 450 of 1200, thorough all), plus comprehensions in the random programs",
+        "programs_with_comprehension": sum(1 for p in progs if G.has_comp(p["body"])),
+        "comprehension_shadows_live_local": len(shadow_live),
+        "comprehension_shadows_live_local_and_spec_accepts": len(shadow_live_clean),
         "dead_code_family": "1146 systematic programs with statements after return/break/continue",
         "programs_with_dead_code": sum(1 for p in progs if G.has_dead(p["body"])),
         "dead_code_programs_accepted": sum(1 for p, r in zip(progs, results) if r["status"] == "ok" and G.has_dead(p["body"])),
@@ -334,7 +359,7 @@ def selftest(ctx):
     if min(flagged.values()) == 0:
         raise lib.Machinery(f"selftest: some corruption class was never flagged: {flagged}")
     action_coverage(ctx, [{"id": p["id"], "body": p["body"]} for p in progs] +
-                    [{"id": 10_000 + i, "body": G.render(q)[1]} for i, q in enumerate(G.jump_family()[::9] + G.dead_family()[::20])])
+                    [{"id": 10_000 + i, "body": G.render(q)[1]} for i, q in enumerate(G.jump_family()[::9] + G.dead_family()[::20] + G.comp_family()[::40])])
     # corrupt the spec input: remove the assignment that makes a program fine -> witnesses must appear
     ok_prog = next(p for p in progs if not wit[p["id"]] and any(s["k"] == "use" for s in p["body"]))
     mutated = [s for s in ok_prog["body"] if s["k"] not in ("asg", "cpy", "for")]
